@@ -501,6 +501,13 @@ pub fn eval_ref(e: &Expr, env: &dyn Env) -> Result<Q, RefErr> {
                         (UState::Known(s), UState::Plain) => Ok(Q { si: &a.si + sign(&b.si * s), dim: a.dim, unit: UState::Known(s.clone()) }),
                         (UState::Plain, UState::Unknown) | (UState::Unknown, UState::Plain) => Err(RefErr::Unspecified("plain number with a quantity whose display unit the statement does not fix")),
                         _ => {
+                            // A dimensionless product/quotient may come back as a plain
+                            // number (which then adopts its partner's unit) or keep a unit
+                            // such as m/ft: the statement does not fix which.
+                            let amb = |q: &Q| q.unit == UState::Unknown && is_zero_dim(&q.dim);
+                            if amb(&a) != amb(&b) {
+                                return Err(RefErr::Unspecified("dimensionless intermediate result combined with a quantity"));
+                            }
                             if a.dim != b.dim {
                                 return Err(RefErr::Incommensurable);
                             }
@@ -540,6 +547,9 @@ pub fn eval_ref(e: &Expr, env: &dyn Env) -> Result<Q, RefErr> {
             let dim = u.dim();
             if a.unit == UState::Plain {
                 return Ok(Q { si: &a.si * &s, dim, unit: UState::Known(s) });
+            }
+            if a.unit == UState::Unknown && is_zero_dim(&a.dim) {
+                return Err(RefErr::Unspecified("cast of a dimensionless intermediate result"));
             }
             if a.dim != dim {
                 return Err(RefErr::Incommensurable);
